@@ -39,7 +39,7 @@ FACTOR = ('seg', 'ele', 'sub', 'eol')
 NAMES = {'': 'none', '\n': 'LF', '\r\n': 'CRLF', '\r': 'CR', '\x1c': 'FS', '\x1d': 'GS', '\\': 'backslash'}
 ENVELOPE = ('ISA', 'GS', 'ST', 'SE', 'GE', 'IEA', 'TA1')
 MUT_OPS = ('delete', 'duplicate', 'swap', 'retag-ZZZ', 'extra-elements', 'extra-components')      # from corpus.mutations
-OWN_OPS = ('trailing-element', 'trailing-component', 'lone-separator', 'control-char', 'caret-in-long-value', 'empty-piece')                                            # made here, on the matrix
+OWN_OPS = ('trailing-element', 'trailing-component', 'lone-separator', 'control-char', 'caret-in-long-value', 'missing-id', 'empty-piece')                                            # made here, on the matrix
 CHARSET_B_MAPS = ('834.4010.X095.A1.xml', '837.4010.X098.A1.xml', '835.5010.X221.A1.xml', '999.5010.xml')
 
 
@@ -307,6 +307,10 @@ def mutants(text, thorough):
         if eles:
             k = len(eles) - 1
             yield 'caret-in-long-value@%d:%s%02d' % (i, sid, k + 1), base[:i] + [[sid, [list(c) for c in eles[:k]] + [['A^B' + 'C' * 300]]]] + base[i + 1:]
+        # a segment whose identifier is missing: the piece begins with the element separator (which may be a control
+        # character that str methods count as whitespace)
+        if eles:
+            yield 'missing-id@%d:%s' % (i, sid), base[:i] + [['', [list(c) for c in eles]]] + base[i + 1:]
         # an empty piece (a doubled terminator) after the segment: not a segment in any encoding, with or without line breaks
         yield 'empty-piece@%d:%s' % (i, sid), base[:i + 1] + [['', []]] + base[i + 1:]
 
